@@ -124,7 +124,13 @@ func (b *c22BlockState) IsDescendantOf(ancestor, descendant common.Hash) (bool, 
 func (b *c22BlockState) LowestCommonAncestor(x, y common.Hash) (common.Hash, error) {
 	return b.bt.LowestCommonAncestor(x, y)
 }
-func (b *c22BlockState) HasFinalisedBlock(round, setID uint64) (bool, error) { return false, nil }
+func (b *c22BlockState) HasFinalisedBlock(round, setID uint64) (bool, error) {
+	if b.finRound == nil {
+		return false, nil
+	}
+	_, ok := b.finRound[[2]uint64{round, setID}]
+	return ok, nil
+}
 func (b *c22BlockState) GetFinalisedHeader(round, setID uint64) (*types.Header, error) {
 	if b.finRound == nil {
 		return b.head, nil
@@ -151,6 +157,9 @@ func (b *c22BlockState) SetFinalisedHash(h common.Hash, round, setID uint64) err
 }
 func (b *c22BlockState) BestBlockHeader() (*types.Header, error) { return b.headers[b.best], nil }
 func (b *c22BlockState) GetHighestFinalisedHeader() (*types.Header, error) {
+	if b.finRound != nil {
+		return b.headers[b.finRound[b.highest]], nil
+	}
 	return b.head, nil
 }
 func (b *c22BlockState) GetImportedBlockNotifierChannel() chan *types.Block {
@@ -175,6 +184,8 @@ func (b *c22BlockState) GetJustification(hash common.Hash) ([]byte, error)      
 
 type c22GrandpaState struct {
 	nextChange *uint
+	// multi-round mode: the precommit justifications finalise() stores (newCommitMessage reads them)
+	pcs map[[2]uint64][]SignedVote
 }
 
 func (g *c22GrandpaState) GetCurrentSetID() (uint64, error) { return c22SetID, nil }
@@ -186,10 +197,18 @@ func (g *c22GrandpaState) SetLatestRound(round uint64) error                    
 func (g *c22GrandpaState) GetLatestRound() (uint64, error)                         { return c22Round, nil }
 func (g *c22GrandpaState) SetPrevotes(round, setID uint64, data []SignedVote) error { return nil }
 func (g *c22GrandpaState) SetPrecommits(round, setID uint64, data []SignedVote) error {
+	if g.pcs != nil {
+		g.pcs[[2]uint64{round, setID}] = append([]SignedVote{}, data...)
+	}
 	return nil
 }
 func (g *c22GrandpaState) GetPrevotes(round, setID uint64) ([]SignedVote, error)   { return nil, nil }
-func (g *c22GrandpaState) GetPrecommits(round, setID uint64) ([]SignedVote, error) { return nil, nil }
+func (g *c22GrandpaState) GetPrecommits(round, setID uint64) ([]SignedVote, error) {
+	if g.pcs != nil {
+		return g.pcs[[2]uint64{round, setID}], nil
+	}
+	return nil, nil
+}
 func (g *c22GrandpaState) NextGrandpaAuthorityChange(h common.Hash, n uint) (uint, error) {
 	if g.nextChange == nil {
 		return 0, state.ErrNoNextAuthorityChange
@@ -686,6 +705,7 @@ func c22CaseMulti(r *vu.RNG) string {
 	}
 	var ops []string
 	msgs := 0
+	ncommits := 0
 	deliver := func(lo int) {
 		type dm struct{ i, m int }
 		var ds []dm
@@ -738,10 +758,12 @@ func c22CaseMulti(r *vu.RNG) string {
 		}
 		byzVotes("p", ri)
 		deliver(lo)
+		var cslots []int
 		for rep := 0; rep < 2; rep++ {
 			for i := 0; i < nh; i++ {
 				if r.Chance(9, 10) {
 					ops = append(ops, fmt.Sprintf("c%x", i))
+					cslots = append(cslots, msgs)
 					msgs++
 				}
 			}
@@ -750,13 +772,91 @@ func c22CaseMulti(r *vu.RNG) string {
 			}
 			deliver(lo)
 		}
+		clo := ncommits
+		// a Byzantine voter assembles a commit message from the round's messages: its own two
+		// (equivocating) precommits first, last or around some honest precommits; any target.
+		// Half of the time it is built and delivered BEFORE the voters attempt to finalise.
+		byzCommit := func() {
+			if nbyz == 0 || !r.Chance(1, 2) {
+				return
+			}
+			j := nh + r.Intn(nbyz)
+			below := c22Below(parents, focuses[ri])
+			target := below[r.Intn(len(below))]
+			if r.Chance(1, 4) {
+				target = r.Intn(k)
+			}
+			other := r.Intn(k)
+			ops = append(ops, fmt.Sprintf("b%x.c.%x.%x", j, other, ri), fmt.Sprintf("b%x.c.%x.%x", j, target, ri))
+			own := []int{msgs, msgs + 1}
+			msgs += 2
+			var list []int
+			if r.Chance(1, 2) && len(cslots) > 0 {
+				// just short of a supermajority: need-2 honest precommits and the equivocator
+				want := 2*n/3 + 1 - 2
+				perm := make([]int, len(cslots))
+				copy(perm, cslots)
+				for x := len(perm) - 1; x > 0; x-- {
+					y := r.Intn(x + 1)
+					perm[x], perm[y] = perm[y], perm[x]
+				}
+				for x := 0; x < want && x < len(perm); x++ {
+					list = append(list, perm[x])
+				}
+			} else {
+				for m := lo; m < msgs-2; m++ {
+					if r.Chance(1, 2) {
+						list = append(list, m)
+					}
+				}
+			}
+			switch r.Intn(3) {
+			case 0:
+				list = append(own, list...)
+			case 1:
+				list = append(list, own...)
+			default:
+				list = append(append([]int{own[0]}, list...), own[1])
+			}
+			var ls []string
+			for _, m := range list {
+				ls = append(ls, fmt.Sprintf("%x", m))
+			}
+			ops = append(ops, fmt.Sprintf("x%x.%x.%x.%s", j, target, ri, strings.Join(ls, "+")))
+			c := ncommits
+			ncommits++
+			for i := 0; i < nh; i++ {
+				if r.Intn(10) < pDeliver {
+					ops = append(ops, fmt.Sprintf("k%x.%x", i, c))
+				}
+			}
+		}
+		early := r.Chance(1, 2)
+		if early {
+			byzCommit()
+		}
 		for i := 0; i < nh; i++ {
 			ops = append(ops, fmt.Sprintf("f%x", i))
+			ncommits++
 		}
 		if r.Chance(1, 3) { // late deliveries, another attempt
 			deliver(lo)
 			for i := 0; i < nh; i++ {
 				ops = append(ops, fmt.Sprintf("f%x", i))
+				ncommits++
+			}
+		}
+		if !early {
+			byzCommit()
+		}
+		// the honest commit messages reach some voters
+		if r.Chance(2, 3) {
+			for i := 0; i < nh; i++ {
+				for c := clo; c < ncommits; c++ {
+					if r.Intn(20) < pDeliver {
+						ops = append(ops, fmt.Sprintf("k%x.%x", i, c))
+					}
+				}
 			}
 		}
 		for i := 0; i < nh; i++ {
@@ -781,18 +881,29 @@ func TestVerifC22(t *testing.T) { vu.Run(t, "C22", 300, c22Gen, c22Run) }
 // input:  w <parents> <nvoters> <nbyz> <bests> <ops>
 //   bests    rounds separated by ";", each a comma list with the PREFERRED best block of honest
 //            voter 0, 1, ... while it is in round index 0, 1, ... (the last entry repeats).  The
-//            voter's best block in a round is the preferred block when that descends from the
-//            voter's finalised head, else the head itself (dot/state prunes the other forks).
+//            voter's best block is the preferred block when that descends from the voter's
+//            finalised head, else the head itself (dot/state prunes the other forks); it is
+//            re-evaluated when the voter enters a round and when it finalises a block.
 //   ops      v<i> c<i> f<i> d<i>.<k> as in the single-round mode, acting in voter i's CURRENT round;
-//            n<i>                  voter i starts its next round (the real Service.initiateRound)
-//                                  if it has finalised a block in its current round, else "wait"
+//            n<i>                  voter i starts its next round (the real Service.initiateRound) if it
+//                                  has finalised a block in its current round or its block state has
+//                                  a finalised block for the round (accepted commit), else "wait"
 //            b<j>.<p|c>.<blk>.<r>  Byzantine voter j signs a vote of round index r
-//   every pool message carries the round it was signed in; validateVoteMessage classifies it against
-//   the receiver's current round.  Commit messages and catch-up are not simulated (a legitimate
-//   schedule: they are lost), the primary's proposal message neither (its own prevote is its best
-//   block in both cases).
-// observed: as in the single-round mode, plus  f: "done" when the voter already finalised in this
-//   round;  n: r<new round index> | wait | e<class>
+//            x<j>.<blk>.<r>.<m1>+<m2>+..  Byzantine voter j assembles a commit message of round index
+//                                  r for the block from the pool messages m1, m2, .. (in that order)
+//            k<i>.<c>              commit message c reaches voter i (Service.handleCommitMessage)
+//   every v, c and b op occupies exactly one slot of the message pool (an empty one when no vote was
+//   cast: dup, wait, error) and every f and x op one slot of the commit pool (a voter that finalises
+//   creates the commit message the engine gossips, Service.newCommitMessage), so that indices do
+//   not depend on the outcome of earlier ops.  Every pool message carries the round it was signed
+//   in; validateVoteMessage classifies it against the receiver's current round.  A commit of a
+//   later round makes initiateRound jump.  The primary's proposal message is not simulated (its
+//   own prevote is its best block in both cases).
+// observed: as in the single-round mode, plus
+//   f: "done" when the voter already finalised in this round; 1.<block>|<voter>.<block>+... with the
+//      precommits of the commit message it creates
+//   n: r<new round index>.h<head> | wait | e<class>      x: the precommits listed
+//   k: 0 accepted and recorded | already (the round has a finalised block) | e<class> | nomsg
 func c22RunMulti(f []string) string {
 	parents := c22List(f[1])
 	k := len(parents) + 1
@@ -869,7 +980,7 @@ func c22RunMulti(f []string) string {
 		bs.highest = [2]uint64{c22Round - 1, c22SetID}
 		s := &Service{
 			blockState:         bs,
-			grandpaState:       &c22GrandpaState{},
+			grandpaState:       &c22GrandpaState{pcs: make(map[[2]uint64][]SignedVote)},
 			keypair:            c22Keypairs[v],
 			authority:          true,
 			network:            c22Network{},
@@ -914,6 +1025,21 @@ func c22RunMulti(f []string) string {
 		}}
 	}
 	var pool []*VoteMessage
+	var commits []*CommitMessage
+	voterOf := make(map[ed25519.PublicKeyBytes]int)
+	for i := 0; i < n; i++ {
+		voterOf[c22Keypairs[i].Public().(*ed25519.PublicKey).AsBytes()] = i
+	}
+	commitStr := func(cm *CommitMessage) string {
+		var l []string
+		for x, pc := range cm.Precommits {
+			l = append(l, fmt.Sprintf("%x.%s", voterOf[cm.AuthData[x].AuthorityID], blk(pc.Hash)))
+		}
+		if len(l) == 0 {
+			return "-"
+		}
+		return strings.Join(l, "+")
+	}
 	prevoted := make([]bool, nh)
 	precommitted := make([]bool, nh)
 	finalisedNow := make([]bool, nh)
@@ -994,6 +1120,7 @@ func c22RunMulti(f []string) string {
 					return "err:badinput"
 				}
 				if finalisedNow[i] {
+					commits = append(commits, nil)
 					out = append(out, "done")
 					continue
 				}
@@ -1005,18 +1132,35 @@ func c22RunMulti(f []string) string {
 				case ok && len(bss[i].finalised) == before+1:
 					finalisedNow[i] = true
 					setBest(i) // dot/state prunes the forks that do not contain the finalised block
-					out = append(out, "1."+blk(bss[i].finalised[before]))
+					// the commit message votingRoundHandler gossips after finalising
+					cm, cerr := svc[i].newCommitMessage(svc[i].head, svc[i].state.round, c22SetID)
+					if cerr != nil {
+						commits = append(commits, nil)
+						out = append(out, "1."+blk(bss[i].finalised[before]))
+					} else {
+						cm.SetID = c22SetID
+						commits = append(commits, cm)
+						out = append(out, "1."+blk(bss[i].finalised[before])+"|"+commitStr(cm))
+					}
+					continue
 				case ok:
 					out = append(out, "1.none")
 				default:
 					out = append(out, "0")
 				}
+				commits = append(commits, nil)
 			case 'n':
 				i := int(vu.UnX(op[1:]))
 				if i >= nh {
 					return "err:badinput"
 				}
-				if !finalisedNow[i] {
+				// finalisationEngine: the round ends when the node finalised a block or the block state
+				// has a finalised block for the round (a commit message was accepted)
+				hasFin, _ := bss[i].HasFinalisedBlock(svc[i].state.round, c22SetID)
+				if bss[i].highest[0] > svc[i].state.round {
+					hasFin = true // checkRoundCompletable: a block was finalised in a higher round
+				}
+				if !finalisedNow[i] && !hasFin {
 					out = append(out, "wait")
 					continue
 				}
@@ -1024,11 +1168,11 @@ func c22RunMulti(f []string) string {
 					out = append(out, fmt.Sprintf("e%x", c22Class(err)))
 					continue
 				}
-				if svc[i].state.round != c22Round+uint64(ridx[i])+1 {
+				if svc[i].state.round <= c22Round+uint64(ridx[i]) {
 					out = append(out, fmt.Sprintf("badround%x", svc[i].state.round))
 					continue
 				}
-				ridx[i]++
+				ridx[i] = int(svc[i].state.round - c22Round)
 				prevoted[i], precommitted[i], finalisedNow[i] = false, false, false
 				setBest(i)
 				out = append(out, fmt.Sprintf("r%x.h%s", ridx[i], blk(svc[i].head.Hash())))
@@ -1059,6 +1203,54 @@ func c22RunMulti(f []string) string {
 				}
 				pool = append(pool, sign(j, &Vote{Hash: hdr[b].Hash(), Number: uint32(hdr[b].Number)}, stage, c22Round+r)) //nolint:gosec
 				out = append(out, "-")
+			case 'x': // a Byzantine voter assembles a commit message from pool messages
+				g := strings.Split(op[1:], ".")
+				if len(g) != 4 {
+					return "err:badinput"
+				}
+				target, r := int(vu.UnX(g[1])), vu.UnX(g[2])
+				if target >= k {
+					return "err:badinput"
+				}
+				cm := &CommitMessage{Round: c22Round + r, SetID: c22SetID,
+					Vote: Vote{Hash: hdr[target].Hash(), Number: uint32(hdr[target].Number)}} //nolint:gosec
+				if g[3] != "-" {
+					for _, ms := range strings.Split(g[3], "+") {
+						m := int(vu.UnX(ms))
+						if m >= len(pool) || pool[m] == nil {
+							continue
+						}
+						cm.Precommits = append(cm.Precommits, Vote{Hash: pool[m].Message.BlockHash, Number: pool[m].Message.Number})
+						cm.AuthData = append(cm.AuthData, AuthData{Signature: pool[m].Message.Signature, AuthorityID: pool[m].Message.AuthorityID})
+					}
+				}
+				commits = append(commits, cm)
+				out = append(out, commitStr(cm))
+			case 'k': // a commit message reaches an honest voter
+				g := strings.Split(op[1:], ".")
+				i, c := int(vu.UnX(g[0])), int(vu.UnX(g[1]))
+				if i >= nh {
+					return "err:badinput"
+				}
+				if c >= len(commits) || commits[c] == nil {
+					out = append(out, "nomsg")
+					continue
+				}
+				cm := commits[c]
+				had, _ := bss[i].HasFinalisedBlock(cm.Round, c22SetID)
+				before := len(bss[i].finalised)
+				err := svc[i].handleCommitMessage(cm)
+				switch {
+				case err != nil:
+					out = append(out, fmt.Sprintf("e%x", c22Class(err)))
+				case had:
+					out = append(out, "already")
+				case len(bss[i].finalised) == before+1 && bss[i].finalised[before] == cm.Vote.Hash:
+					setBest(i)
+					out = append(out, "0")
+				default:
+					out = append(out, "0?")
+				}
 			default:
 				return "err:badinput"
 			}
